@@ -147,7 +147,7 @@ Op Gen::compactOp() {
     int R = (int)r.range(1, 15);
     if (r.chance(0.5)) R = (int)r.range(1, 6);
     std::vector<H3Index> cells;
-    int m = (int)r.range(1, 4);
+    int m = (int)r.range(1, boost ? 6 : 4);
     int maxDepth = 0;
     for (int i = 0; i < m; i++) {
         int d = 1;
@@ -155,6 +155,7 @@ Op Gen::compactOp() {
         if (u > 0.4) d = 2;
         if (u > 0.7) d = 3;
         if (u > 0.9) d = 4;
+        if (boost && u > 0.97) d = 5;
         if (d > R) d = R;
         int pr = R - d;
         H3Index parent;
@@ -257,7 +258,7 @@ Op Gen::diskOp(bool distancesFn) {
     op.fn = distancesFn ? FN_gridDiskDistances : FN_gridDisk;
     int res = (int)r.below(16);
     int k = (int)r.below(6);
-    if (r.chance(0.3)) k = (int)r.range(0, 20);
+    if (r.chance(0.3)) k = (int)r.range(0, boost ? 45 : 20);
     H3Index origin;
     double u = r.unit();
     if (u < 0.35) {
@@ -568,6 +569,22 @@ Op Gen::polygonOp(int fn, int maxCells) {
         }
     }
     if (fn == FN_polygonToCellsExperimental || fn == FN_maxPolygonToCellsSizeExperimental) {
+        // A polygon with a non-finite or out-of-range vertex makes the iterator-based functions
+        // (and their own size estimate, whose area heuristic degenerates on NaN) walk the whole
+        // grid at the target resolution.  That is legal but unbounded work, so such polygons are
+        // only issued at resolutions 0..2 (<= 5882 cells).  Decided from the data, never from a clock.
+        bool unbounded = false;
+        for (auto &l : op.loops)
+            for (auto &v : l)
+                if (!std::isfinite(v.lat) || !std::isfinite(v.lng) || fabs(v.lat) > PI / 2 ||
+                    fabs(v.lng) > PI)
+                    unbounded = true;
+        if (unbounded && op.ints[0] > 2 && op.ints[0] <= 15) {
+            op.ints[0] = (int64_t)r.below(3);
+            op.tag += "+res<=2";
+        }
+    }
+    if (fn == FN_polygonToCellsExperimental || fn == FN_maxPolygonToCellsSizeExperimental) {
         // the legacy estimate fails for unbounded polygons (infinite vertices) while the
         // iterator-based functions walk the whole grid for them: bound by their own estimate
         for (;;) {
@@ -626,6 +643,7 @@ Op Gen::c17OpFor(int fn) {
             double u = r.unit();
             if (u > 0.75) maxCells = 3000;
             if (u > 0.97) maxCells = 30000;
+            if (boost && u > 0.995) maxCells = 200000;
             return polygonOp(fn, maxCells);
         }
     }
@@ -747,14 +765,16 @@ Op Gen::c16Op(int maxCells) {
 }
 
 // ----------------------------------------------------------------- C18 ----
-Op Gen::anyOp(int scale) {
+Op Gen::anyOp(int scale, int forcedFn) {
     Op op;
     int fn;
     do {
         fn = (int)r.below(FN_COUNT);
     } while (fn == FN_destroyLinkedMultiPolygon);
     // favour the functions with scratch memory and the big algorithms
-    if (r.chance(0.35)) {
+    if (forcedFn >= 0 && forcedFn != FN_destroyLinkedMultiPolygon) {
+        fn = forcedFn;
+    } else if (r.chance(0.35)) {
         static const int heavy[] = {FN_compactCells,
                                     FN_gridDisk,
                                     FN_gridDiskDistances,
@@ -985,6 +1005,8 @@ Op Gen::anyOp(int scale) {
             op.cells = {anyCellOrBad()};
             op.ints = {r.range(-12, 12), r.range(-12, 12),
                        r.chance(0.9) ? 0 : (int64_t)r.below(4)};
+            if (r.chance(0.3)) op.ints[0] = r.range(-400, 400), op.ints[1] = r.range(-400, 400);
+            if (r.chance(0.3)) op.cells[0] = r.chance(0.5) ? pentagon((int)r.below(16)) : nearPentagon((int)r.below(16), 3);
             if (r.chance(0.05)) op.ints[0] = r.range(-2000000000LL, 2000000000LL);
             break;
         case FN_cellToVertex:
